@@ -187,8 +187,18 @@ class SigmaDetectionItem(ProcessingItemTrackingMixin, ParentChainMixin):
         * a dict in all other cases (detection item bound to field or keyword with modifiers)
         """
         if self.original_value is None:
+            # The item is named by its key (field and modifiers). Its representation would contain
+            # the whole parent chain (with randomly named added conditions) and sets of applied
+            # processing items, i.e. differ between processes.
+            item_key = "|".join(
+                [self.field or ""]
+                + [
+                    reverse_modifier_mapping.get(modifier.__name__, modifier.__name__)
+                    for modifier in self.modifiers
+                ]
+            )
             raise sigma_exceptions.SigmaValueError(
-                f"Detection item { str(self) } can't be converted to plain data type anymore because the current value is not in sync with original value anymore, e.g. by applying transformations.",
+                f"Detection item '{ item_key }' can't be converted to plain data type anymore because the current value is not in sync with original value anymore, e.g. by applying transformations.",
                 source=self.source,
             )
 
